@@ -1,9 +1,95 @@
-import OnosVerif.Tree.Model
-import OnosVerif.Tree.Flatten
+/-
+C18 — the JSON document is the configuration, no more and no less.
+
+Property theorems only.  The twin (OnosVerif/Tree/Model.lean) mirrors `BuildTree`,
+`addPathToTree`, `PrunePathValues`, `PrunePathMap` of pkg/utils/v2/tree/tree.go (the v3 copy
+differs only in value vs pointer slices) on the *text* of paths, as the Go code does; it is tied
+to both Go packages by the correspondence check `harness/props/c18`.  Specification-side
+definitions: OnosVerif/Tree/Spec.lean, OnosVerif/Tree/Flatten.lean; helper lemmas:
+OnosVerif/Proofs/{StrOrder,TreePrune}.lean.
+-/
+import OnosVerif.Proofs.TreePrune
 
 namespace OnosVerif.Props.C18
 open OnosVerif.Tree
+open OnosVerif.Path (Str)
 
-theorem C18_stub : True := trivial
+/-! ## Pruning -/
+
+/-- What `PrunePathValues` really computes, for every set of path/values with distinct paths:
+    in path order, everything that has another deleted path as a *textual prefix* is dropped;
+    the deleted paths themselves are dropped too unless `leaveTop`, in which case exactly the
+    top-most ones stay.  (One variable `deletingPrefix` suffices because the strings that share
+    a prefix are contiguous in the sorted order.) -/
+theorem C18_prune_is_textual (pvs : List PV) (leaveTop : Bool) (hd : pathsDistinct pvs = true)
+    (hne : leaveTop = true → noEmptyPath pvs = true) :
+    prunePathValues pvs leaveTop = pruneSpec hasPrefix leaveTop pvs :=
+  prune_textual pvs leaveTop hd hne
+
+/-- Pruning is exact — it removes exactly the deleted nodes and their descendants at element
+    boundaries, and with `leaveTop` keeps exactly the top-most tombstones — *provided* no deleted
+    path is a textual prefix of a sibling (`noSiblingPrefix`).
+    The full statement (without that precondition) is false of code and twin alike:
+    `C18_prune_exact_full_fails`, known finding KF-C18-prune-textual. -/
+theorem C18_prune_exact_partial (pvs : List PV) (leaveTop : Bool) (hd : pathsDistinct pvs = true)
+    (hne : leaveTop = true → noEmptyPath pvs = true) (hs : noSiblingPrefix pvs = true) :
+    prunePathValues pvs leaveTop = pruneSpec boundaryPrefix leaveTop pvs := by
+  rw [prune_textual pvs leaveTop hd hne, pruneSpec_boundary pvs leaveTop hs]
+
+/-- tombstone `/a/b`, live sibling `/a/bc`. -/
+def witnessPrune : List PV :=
+  [{ path := "/a/b".toList, val := .empty, deleted := true },
+   { path := "/a/bc".toList, val := .str "v".toList, deleted := false }]
+
+/-- negation witness for the full pruning statement: the live sibling `/a/bc` of the deleted
+    `/a/b` is removed (both flags). -/
+theorem C18_prune_exact_full_fails :
+    pathsDistinct witnessPrune = true ∧ noEmptyPath witnessPrune = true ∧
+    prunePathValues witnessPrune false ≠ pruneSpec boundaryPrefix false witnessPrune ∧
+    prunePathValues witnessPrune true ≠ pruneSpec boundaryPrefix true witnessPrune ∧
+    prunePathValues witnessPrune false = [] := by
+  decide
+
+/-- `PrunePathMap` returns, as a map, exactly what `PrunePathValues` returns. -/
+theorem C18_prune_map_eq_values (vals : List PV) (leaveTop : Bool) (hd : pathsDistinct vals = true)
+    (hne : leaveTop = true → noEmptyPath vals = true) :
+    prunePathMap vals leaveTop = prunePathValues vals leaveTop :=
+  pruneMap_eq vals leaveTop hd hne
+
+/-- The result of pruning does not depend on the order in which the path/values arrive (slice
+    order for `PrunePathValues`, Go map iteration order for `PrunePathMap`). -/
+theorem C18_prune_order_irrelevant (vals vals' : List PV) (leaveTop : Bool) (hp : vals.Perm vals')
+    (hd : pathsDistinct vals = true) :
+    prunePathValues vals leaveTop = prunePathValues vals' leaveTop ∧
+    prunePathMap vals leaveTop = prunePathMap vals' leaveTop := by
+  have h : prunePathValues vals leaveTop = prunePathValues vals' leaveTop := by
+    unfold prunePathValues; rw [sortPVs_perm vals vals' hp hd]
+  exact ⟨h, by unfold prunePathMap; rw [h]⟩
+
+/-- The quirk excluded by `noEmptyPath`: a deleted *empty* path is not a tombstone for the loop
+    (`len(deletingPrefix) == 0` reads as "not deleting"); with `leaveTop` it is returned twice. -/
+theorem C18_prune_empty_path_quirk (v : Val) :
+    prunePathValues [{ path := [], val := v, deleted := true }] true =
+      [{ path := [], val := v, deleted := true }, { path := [], val := v, deleted := true }] := by
+  rfl
+
+/-! non-vacuity of the pruning preconditions: a set with nested tombstones, list entries and
+    prefix-sharing names that are *not* tombstoned -/
+
+def samplePrune : List PV :=
+  [{ path := "/a/l[k=1]/x".toList, val := .str "v".toList, deleted := false },
+   { path := "/a/l[k=1]".toList, val := .empty, deleted := true },
+   { path := "/a/l[k=10]/x".toList, val := .uint 3 false, deleted := false },
+   { path := "/a/b/c".toList, val := .empty, deleted := true },
+   { path := "/a/b".toList, val := .empty, deleted := true },
+   { path := "/a/bc".toList, val := .bool true, deleted := true },
+   { path := "/a/b-c".toList, val := .bool true, deleted := false }]
+
+example : pathsDistinct samplePrune = true := by decide
+example : noEmptyPath samplePrune = true := by decide
+example : noSiblingPrefix samplePrune = false := by decide   -- `/a/b` vs `/a/b-c`
+example : noSiblingPrefix (samplePrune.take 4 ++ samplePrune.drop 5) = true := by decide
+example : (prunePathValues (samplePrune.take 4 ++ samplePrune.drop 5) true).map (fun p => String.ofList p.path) =
+    ["/a/b-c", "/a/b/c", "/a/bc", "/a/l[k=10]/x", "/a/l[k=1]"] := by decide
 
 end OnosVerif.Props.C18
